@@ -34,6 +34,21 @@ from .version import VERSION_STRING
 
 log = logging.getLogger(__name__)
 
+_colorama_initialized = False
+
+
+def _init_colorama():
+    """Calls :func:`colorama.init` at most once per process.
+
+    Every call wraps :obj:`sys.stdout` and :obj:`sys.stderr` in one more stream wrapper, so calling it for every
+    :class:`Printer` eventually exhausts the recursion limit when one of them is written to.
+
+    """
+    global _colorama_initialized
+    if not _colorama_initialized:
+        _colorama_initialized = True
+        colorama.init()
+
 
 class Writer(Protocol):
     """A protocol for basic IO writers that is a subset of :class:`typing.IO`."""
@@ -479,7 +494,7 @@ class Printer(StatusWriter, RawWriter):
         self._ansi_color = None
         self.ansi_color = ansi_color
         if self.ansi_color:
-            colorama.init()
+            _init_colorama()
         self._strikethrough = False
         self._plusthrough = False
         if options is not None:
